@@ -251,6 +251,8 @@ def main(argv=None):
     a = ap.parse_args(argv)
     prop = a.prop.upper()
     seed = int(os.environ.get("VERIF_SEED", "1") or "1")
+    import logging
+    logging.disable(logging.CRITICAL)
     t0 = time.time()
     try:
         mod = _load(prop)
